@@ -416,6 +416,39 @@ def run_hid_owner(prog, rep):
             rule.check(not fresh, '%s|is_copy@%s' % (f.q, x.l), rep.where(x), f.label(), 'is_copy = true on an id owned elsewhere (%s)' % args[0].src(30),
                        'the id just returned by %s is wrapped with is_copy = true: the wrapper adds a second reference and releases only one, so every call leaks a reference '
                        '(for H5Iget_file_id: on the file id - close() returns but libhdf5 keeps the file open, unflushed and locked)' % ((src.callee or {}).get('name')))
+    # the dual: a wrapper constructed WITHOUT is_copy adopts the reference; handing it an id that another wrapper owns (this
+    # object's own hid, other.h5id()) makes its destructor release the owner's reference
+    def derives_h5object(cls, depth=0):
+        r = prog.records.get(cls)
+        if cls == 'nix::hdf5::H5Object':
+            return True
+        if r is None or depth > 6:
+            return False
+        return any(derives_h5object(b if isinstance(b, str) else b.get('q', ''), depth + 1) for b in r.get('bases', []))
+    nadopt = 0
+    for f in sorted(prog.funcs.values(), key=lambda f: (f.file, f.line)):
+        if f.body is None or not f.q.startswith('nix::hdf5::'):
+            continue
+        inits = set()
+        for ci in f.walk():
+            if ci.k == 'ctorinit':
+                for y in ci.walk():
+                    inits.add(y.id)
+        for x in f.walk():
+            if x.k != 'construct' or x.id in inits or not derives_h5object((x.callee or {}).get('cls') or ''):
+                continue
+            args = [a for a in x.c if a is not None and a.k != 'defarg']
+            if not args or len(args) > 2 or 'hid_t' not in ((x.callee or {}).get('sig') or ''):
+                continue
+            if len(args) == 2 and term(unwrap(args[1])) == ('k', True):
+                continue
+            t = term(unwrap(args[0]))
+            # only ids held by this object itself (its own hid, the id of a member wrapper): for a *local* wrapper the early release is
+            # masked by the H5Iis_valid guard in dec() - six such conversions exist (vlenReclaim(memType.h5id(), ...)) and are left alone
+            owned = t == ('f', 'hid') or (isinstance(t, tuple) and t[0] == 'm' and t[1] in ('h5id',) and isinstance(t[2], tuple) and t[2][0] == 'f')
+            nadopt += 1
+            rule.check(not owned, '%s|adopt@%s' % (f.q, x.l), rep.where(x), f.label(), 'adopts an id that no other wrapper owns (%s)' % args[0].src(30),
+                       'a temporary %s adopts %s, an id that another wrapper owns, without is_copy: its destructor releases the owner\'s reference (for the file id: isOpen() turns false, close() returns at its guard, nothing is swept or flushed)' % (((x.callee or {}).get('cls') or '').split('::')[-1], args[0].src(30)))
     if n < 1:
         raise AnalysisBroken('R-HIDOWN: no raw local HDF5 id found (anchor: H5Group::objectOfType)')
     return rule
